@@ -215,6 +215,15 @@ class MpWriter(SegmentWriter):
         try:
             for task in self.tasks:
                 task.cancel()
+                # task.cancel() only flags this process's copy of the task
+                # object: stop the sub-writer process itself, otherwise it
+                # keeps creating files in the temporary storage while
+                # SegmentWriter.cancel() is destroying it (OSError "directory
+                # not empty" before the write lock is released) and lives on,
+                # blocked on the job queue
+                if task.is_alive():
+                    task.terminate()
+                    task.join()
         finally:
             SegmentWriter.cancel(self)
 
